@@ -594,7 +594,7 @@ class Macros:
         self.template.cook_check()
 
         result = []
-        for name in self.template.__dict__:
+        for name in list(self.template.__dict__):
             if name.startswith('_render_'):
                 result.append(name[8:])
         return result
